@@ -266,10 +266,6 @@ func (r *sharedResource) clearPartitionId(index uint32) {
 
 func (r *sharedResource) provisionBlobs(ctx context.Context) {
 
-	// get a write lock on partitions
-	r.partlock.Lock()
-	defer r.partlock.Unlock()
-
 	// make 1 partition per factor
 	sharedCapacity := atomic.LoadUint32(&r.sharedCapacity)
 	count := int(math.Ceil(float64(sharedCapacity) / float64(r.factor)))
@@ -279,9 +275,13 @@ func (r *sharedResource) provisionBlobs(ctx context.Context) {
 	}
 
 	// copy into a new partition list
+	// NOTE: the write lock is only held for the resize, not while the blobs are created, otherwise a lease that expires
+	// meanwhile could not be cleared and would still be counted as capacity until the (slow) provisioning was done
+	r.partlock.Lock()
 	partitions := make([]*string, count)
 	copy(partitions, r.partitions)
 	r.partitions = partitions
+	r.partlock.Unlock()
 
 	// emit start
 	r.Emit(ProvisionStartEvent, count, "start blob provisioning", nil)
